@@ -106,6 +106,19 @@ def r_C05cde(root):
         ob("C05", "C05.f", M, "get_model", "from the %s" % what, okc)
         if not okc:
             out.append(Finding("C05", "C05.f", M, "get_model", "from the %s" % what, ("get_model compares model objects with == / in: a user class that defines equality by value makes the walk stop early or skip objects" if eqlog else "get_model started at the %s of a three-level sample chain does not return the chain's root (%s)" % (what, "raises " + str(v) if k == "raise" else "returns another object")), witness="user class with __eq__ comparing names; get_model(inner)"))
+    # a container that is falsy (user class defining __len__ / __bool__, e.g. a block without statements): the walk goes through it
+    class FObj(SObj):
+        def __bool__(s_): return False
+    r4 = mk2(cC); f4 = FObj(mk2(cB, r4)); l4 = mk2(cA, f4); rf = FObj(mk2(cC)); lf = mk2(cA, mk2(cB, rf))
+    for what, start, want in (("child of a falsy container", l4, r4), ("falsy container itself", f4, r4), ("leaf of a tree whose root object is falsy", lf, rf)):
+        inst += 1; del eqlog[:]
+        try: k, v = "ret", _pe.run_block(gm.body, {"__functions__": helper_functions(root, M, "get_model"), pm: start, "T": None, "Any": None})
+        except _pe.Raised as r_: k, v = "raise", r_.cls
+        except _pe.Unsupported as u_: raise AnalysisError("get_model: outside the evaluated subset: %s" % u_)
+        okc = k == "ret" and v is want and not eqlog
+        for pr_ in ("C05", "C08"): ob(pr_, "C05.f", M, "get_model", "from the %s" % what, okc)
+        if not okc:
+            for pr_ in ("C05", "C08"): out.append(Finding(pr_, "C05.f", M, "get_model", "from the %s" % what, "get_model started at the %s %s; documented: the root of the containment tree - whether an object on the way is truthy is the user class's business (a container without items), the walk follows `parent` by presence (the references of the objects below such a container are resolved and ordered in the model get_model finds)" % (what, "raises " + str(v) if k == "raise" else ("consults user-defined equality" if eqlog else "stops before the root" if v is not want else "")), witness="user class with __len__ for a rule  Block: '{' items*=Item '}'"))
     # a deeply nested object (300 containers): the walk has no depth limit
     deep = r3 = mk2(cC)
     for _i in range(300): deep = mk2(cB, deep)
